@@ -33,6 +33,13 @@ type FibNextHopEntry struct {
 	Cost    uint64
 }
 
+// FibNextHopsUpdate gives the complete set of nexthops a prefix is to have
+// (an empty set removes the prefix's nexthops).
+type FibNextHopsUpdate struct {
+	Name     enc.Name
+	NextHops []FibNextHopEntry
+}
+
 // FibStrategy represents the functionality that a FIB-strategy table should implement.
 type FibStrategy interface {
 	FindNextHopsEnc(name enc.Name) []*FibNextHopEntry
@@ -40,6 +47,9 @@ type FibStrategy interface {
 	InsertNextHopEnc(name enc.Name, nextHop uint64, cost uint64)
 	ClearNextHopsEnc(name enc.Name)
 	RemoveNextHopEnc(name enc.Name, nextHop uint64)
+	// ReplaceNextHopsEnc replaces the nexthops of all the given prefixes in one
+	// step: concurrent lookups see the table either before or after all of them.
+	ReplaceNextHopsEnc(updates []FibNextHopsUpdate)
 	GetAllFIBEntries() []FibStrategyEntry
 	SetStrategyEnc(name enc.Name, strategy enc.Name)
 	UnSetStrategyEnc(name enc.Name)
